@@ -84,6 +84,8 @@ def gen(rng):
     bases = {None: [home + '/a', home + '/a/foo', home + '/a/foobar', home + '/ab', home, '/tmp', home + '/a/deep/er/still']}
     cand = ['foo', 'foobar', 'fo', 'x', 'foo_1', 'zeta', 'Alpha', 'bar baz']
     n = rng.choice([0, 1, 2, 3, 4, 6, 9, 12])
+    if rng.random() < 0.003:
+        n = rng.choice([101, 257, 1001, 1025]) + rng.choice([0, 1, 3])      # a list past a round length: indices of 3 and 4 digits
     used = set()
     twins = [0]
     dates = [TG.rand_date(rng) for _ in range(4)]
@@ -101,7 +103,7 @@ def gen(rng):
             d = rng.choice(['/srv', '/srv/a', '/opt', home + '/a'])
         else:
             d = rng.choice([top + '/a', top + '/a/foo', top + '/ab', top])
-        loc = d + '/' + rng.choice(cand)
+        loc = d + '/' + rng.choice(cand) + ('-%d' % i if n > 100 and i >= 8 else '')
         if loc in used:
             continue
         if any(u.startswith(loc + '/') or loc.startswith(u + '/') for u in used) and rng.random() < 0.6:
